@@ -235,9 +235,11 @@ Proof. split; [exact ex_plain_ttx_ok | split; [exact ex_plain_ttx_srt_ok | refle
      those of the PLAIN document whose line text is the run texts put together with NOTHING in between (ttx_to_plain): the
      file reads back as ptrunc unit (ttx_to_plain cs).  No byte of text is lost; a word boundary that was on the page only as
      the attribute cell (displayed as a space) between two runs, or as spaces next to it, is not in the run texts the reader
-     returns and so is not in the file: "Hello" <red> "red" reads back "Hellored" (notes/C06.md, finding F-C07-ttx-glue).
+     returns and so is not in the file: "Hello" <red> "red" reads back "Hellored".  This is inside C07's tolerance ("the same
+     text once inter-run whitespace is disregarded") and is recorded as an observation in notes/C06.md.
    - stl: the writer joins the runs of a line with ONE space: the file reads back as the run texts joined with a single
-     space (ttx_to_plain_spaced), whatever number of spaces / attribute cells was between them on the page.
+     space (ttx_to_plain_spaced), whatever number of spaces / attribute cells was between them on the page; the two views
+     are equal once spaces are disregarded (C07_ttx_spaced_nosp: the normalisation is "delete every byte 0x20").
    - ttml: one span per run (tts:color from the teletext colour), reads back with the run texts put together.
    runs_whole: no run text ends with the byte 0xC2 (the writers escape each run on its own and U+00A0 = C2 A0 is the only
    escaped sequence longer than a byte; run texts of the reader are whole characters).
@@ -264,6 +266,9 @@ Theorem C07_ttx_stl_single_run : forall cs, Forall (fun c => Forall (fun l : lis
   ttx_to_plain_spaced cs = ttx_to_plain cs.
 Proof. exact spaced_single. Qed.
 Print Assumptions C07_ttx_stl_single_run.
+Theorem C07_ttx_spaced_nosp : forall cs, plain_nosp (ttx_to_plain_spaced cs) = plain_nosp (ttx_to_plain cs).
+Proof. exact spaced_nosp. Qed.
+Print Assumptions C07_ttx_spaced_nosp.
 Theorem C07_ttx_to_vtt_styled_partial : forall ds cs, ttx_feed 0 ds = Ok cs -> cues_classless cs = true -> runs_whole cs = true ->
   vtt_plain_ok (ttx_to_plain cs) ->
   exists dst, convert_ttx_vtt ds = Ok dst /\ vtt_dec dst = Ok (ptrunc 1000000 (ttx_to_plain cs)).
